@@ -31,8 +31,8 @@ VEC_ID = 10 ** 6    # id offset of the second-component record of a vector-value
 NS = 2              # samples per enumerated case (MC_DepResolve cfg files)
 
 
-class Timeout(Exception):
-    pass
+class Timeout(BaseException):
+    """raised by the alarm; not an Exception, so that the graders' own 'except Exception' cannot swallow it"""
 
 
 def _alarm(signum, frame):
@@ -569,10 +569,13 @@ def replay_num(states, extra):
                                 'allowed': out['alts'], 'obs': obs, 'clause': clause})
                 else:
                     bad.append(None)
-            elif out['inst'] in ('no', 'unspecified'):
+            else:
+                d = drift_of(out, alt, obs, m) if style == 'plain' or alt['res'] == 'error' else ''
                 present = any(p['n'] == cfg['occ'][0]['key'] for row in obs['samples'] for p in row)
-                if present and out['inst'] == 'no' and len(drift) < 5:
-                    drift.append('name %s sampled although it is no numbered-variable instance' % cfg['occ'][0]['key'])
+                if present and out['inst'] == 'no':
+                    d = d or 'name %s sampled although it is no numbered-variable instance' % cfg['occ'][0]['key']
+                if d and len(drift) < 5:
+                    drift.append('grader %s: %s' % (cfg_summary(cfg), d))
     return {'n': n, 'keys': sorted(keys), 'bad': bad, 'drift': drift, 'sample': sample}
 
 
